@@ -10,7 +10,7 @@ from __future__ import annotations
 import ast
 
 from ..core import Rule, AnalysisError, norm
-from .. import pyfront, pycalls, cfold, rx
+from .. import pyfront, pycalls, cfold, rx, pyutil
 
 RB = "python/digital_rf/ringbuffer.py"
 BASE = "DigitalRFRingbufferHandlerBase"
@@ -32,14 +32,30 @@ def r1_only_tracked_paths_deleted(repo=None):
     for q, f in m.functions.items():
         if "<locals>" in q:
             continue
-        for call, what in pycalls.mutator_calls(f):
+        muts = pycalls.mutator_calls(f)
+        if not muts:
+            continue
+        # locals bound to a record popped from the record table, and to the directory of such a record's path
+        recs = {n.targets[0].id for n in pyfront.walk_no_nested(f) if isinstance(n, ast.Assign) and isinstance(n.targets[0], ast.Name)
+                and isinstance(n.value, ast.Call) and pyfront.call_name(n.value) == "self.records.pop"}
+        dirs = set()
+        for n in pyfront.walk_no_nested(f):
+            if isinstance(n, ast.Assign) and isinstance(n.value, ast.Call) and pyfront.call_name(n.value) in ("os.path.split", "os.path.dirname") \
+                    and n.value.args and isinstance(n.value.args[0], ast.Attribute) and n.value.args[0].attr == "path" \
+                    and isinstance(n.value.args[0].value, ast.Name) and n.value.args[0].value.id in recs:
+                t = n.targets[0]
+                if isinstance(t, ast.Tuple) and isinstance(t.elts[0], ast.Name):
+                    dirs.add(t.elts[0].id)
+                elif isinstance(t, ast.Name) and pyfront.call_name(n.value) == "os.path.dirname":
+                    dirs.add(t.id)
+        for call, what in muts:
             n_mut += 1
-            arg = norm(ast.unparse(call.args[0])) if call.args else "?"
+            arg = call.args[0] if call.args else None
             site = "%s:%s %s `%s`" % (m.rel, call.lineno, q, norm(ast.unparse(call)))
-            src = norm(ast.unparse(f))
-            if what == "os.remove" and arg == "rec.path" and ("rec = self.records.pop(path)" in src):
+            if what == "os.remove" and isinstance(arg, ast.Attribute) and arg.attr == "path" and isinstance(arg.value, ast.Name) \
+                    and arg.value.id in recs:
                 r.ok(site, "deletes the path of a record taken out of self.records")
-            elif what == "os.rmdir" and arg == "head" and "head, tail = os.path.split(rec.path)" in src:
+            elif what == "os.rmdir" and isinstance(arg, ast.Name) and arg.id in dirs:
                 r.ok(site, "removes only the (empty) directory that held the expired file")
             else:
                 r.violation(m.rel, q, norm(ast.unparse(call)), "the ringbuffer deletes/changes a path that is not taken from its "
@@ -47,30 +63,30 @@ def r1_only_tracked_paths_deleted(repo=None):
                             line=call.lineno)
     if n_mut < 3:
         raise AnalysisError("ringbuffer.py: %d mutator call sites found, 3 confirmed" % n_mut)
-    # records are stored only from FileRecords built in _get_file_record after a successful match with a secs group
+    # records are built only in _get_file_record, after a successful match that yielded a `secs` group
     fr = [c for c in ast.walk(m.tree) if isinstance(c, ast.Call) and (pyfront.call_name(c) or "").endswith("FileRecord")]
     builders = {m.qualname_of(c) for c in fr}
     if builders == {BASE + "._get_file_record"}:
-        g = m.cfg(BASE + "._get_file_record")
+        q = BASE + "._get_file_record"
+        g = m.cfg(q)
+        f = m.fn(q)
         ret = [n for n in g.nodes if n.kind == "return" and "FileRecord" in n.label]
-        keynone = [n for n in g.nodes if n.kind == "cond" and n.label == "key is None"]
-        ok = ret and keynone and all(x.id not in g.reach([b for b, l in g.succ[keynone[0].id] if l == "T"], skip_labels=("exc",)) for x in ret) \
-            and all(x.id not in g.reach([g.entry.id], avoid=[keynone[0].id], skip_labels=("exc",)) for x in ret)
-        src = norm(ast.unparse(m.fn(BASE + "._get_file_record")))
-        if ok and "for r in self.regexes:" in src and "secs = int(m.group('secs'))" in src:
-            r.ok("%s:%s %s._get_file_record" % (m.rel, ret[0].line, BASE), "a FileRecord is built only after one of the handler's "
-                 "regexes matched the path and yielded a `secs` group")
+        keyvars = [pyfront.kwarg(c, "key", 0) for c in fr]
+        kv = keyvars[0].id if keyvars and isinstance(keyvars[0], ast.Name) else None
+        secs_ok = any(isinstance(c, ast.Call) and isinstance(c.func, ast.Attribute) and c.func.attr == "group"
+                      and c.args and pyfront.const(c.args[0]) == "secs" for c in ast.walk(f)) and any(
+            isinstance(lp, ast.For) and norm(ast.unparse(lp.iter)) == "self.regexes" for lp in ast.walk(f))
+        if ret and kv and secs_ok and all(pyutil.truth_guarded(g, x.id, kv) for x in ret):
+            r.ok("%s:%s %s" % (m.rel, ret[0].line, q), "a FileRecord is built only after one of the handler's regexes matched the path and "
+                 "yielded a `secs` group (`%s` is not None)" % kv)
+        elif not ret or not kv:
+            raise AnalysisError("%s: FileRecord(key=<var>, ...) return not recognised" % q)
         else:
-            r.violation(m.rel, BASE + "._get_file_record", "FileRecord construction", "a record can be created for a path that did not "
-                        "match the data-file grammar", line=m.fn(BASE + "._get_file_record").lineno)
+            r.violation(m.rel, q, "FileRecord construction", "a record can be created for a path that did not "
+                        "match the data-file grammar", line=ret[0].line)
+        r.ok("%s FileRecord" % m.rel, "constructed only in %s: every record handled by the ringbuffer stems from a grammar match" % q)
     else:
         r.violation(m.rel, "-", "FileRecord built in %s" % sorted(builders), "records are created outside _get_file_record", line=None)
-    for q in (BASE + ".add_files", BASE + ".modify_files"):
-        src = norm(ast.unparse(m.fn(q)))
-        if "records = (self._get_file_record(p) for p in paths)" in src and "records = (r for r in records if r is not None)" in src:
-            r.ok("%s:%s %s" % (m.rel, m.fn(q).lineno, q), "records handed on come from _get_file_record, unmatched paths filtered out")
-        else:
-            r.violation(m.rel, q, "record source", "records do not come (only) from _get_file_record", line=m.fn(q).lineno)
     # the base handler is constructed with properties excluded (constants)
     init = m.fn(BASE + ".__init__")
     sup = [c for c in ast.walk(init) if isinstance(c, ast.Call) and pyfront.call_name(c) == "super().__init__"]
@@ -176,11 +192,15 @@ def r2_accounting_pairs_with_mutation(repo=None):
         if isinstance(sup[0].ast, ast.Assign) and isinstance(sup[0].ast.targets[0], ast.Name):
             flag = sup[0].ast.targets[0].id
         # mutation sites in the delegate
+        qlocals = {x.targets[0].id for x in pyfront.walk_no_nested(bf) if isinstance(x, ast.Assign) and isinstance(x.targets[0], ast.Name)
+                   and norm(ast.unparse(x.value)).startswith("self.queues[")}
+
         def mutates(n):
             for c in pyfront.node_calls(n):
-                if isinstance(c.func, ast.Attribute) and c.func.attr in ("append", "appendleft", "remove", "popleft", "pop") \
-                        and pyfront.dotted(c.func.value) in ("queue", "self.records"):
-                    return True
+                if isinstance(c.func, ast.Attribute) and c.func.attr in ("append", "appendleft", "remove", "popleft", "pop", "insert"):
+                    recv = norm(ast.unparse(c.func.value))
+                    if recv in qlocals or recv.startswith("self.queues[") or recv == "self.records":
+                        return True
                 if pyfront.call_name(c) in ("self._add_record",):
                     return True
             a = n.ast
@@ -215,11 +235,10 @@ def r2_accounting_pairs_with_mutation(repo=None):
             continue
         # flag idiom: update is control dependent on the flag; delegate's truthy returns <=> mutation
         ctrl = None
-        for n in upd:
-            for a in _anc(m, n.ast):
-                if isinstance(a, ast.If) and flag in pyfront.names_in(a.test):
-                    neg = isinstance(a.test, ast.UnaryOp) and isinstance(a.test.op, ast.Not)
-                    ctrl = (a, neg)
+        pos = all(pyutil.truth_guarded(og, n.id, flag, True) for n in upd)
+        negd = all(pyutil.truth_guarded(og, n.id, flag, False) for n in upd)
+        if pos or negd:
+            ctrl = (None, negd and not pos)
         if ctrl is None:
             r.violation(m.rel, oq, "active_size update not guarded by `%s`" % flag, "the flag returned by the base method is ignored",
                         line=upd[0].line)
@@ -325,8 +344,19 @@ def r3_oldest_first_and_owners(repo=None):
     if n_sub < 4:
         raise AnalysisError("only %d constant queue subscripts found" % n_sub)
     # the victim of _expire_oldest_from_group is the head
-    src = norm(ast.unparse(m.fn(BASE + "._expire_oldest_from_group")))
-    if "key, path = self.queues[group][0] rec = self.records.pop(path) self._remove_from_queue(rec)" in src:
+    ef = m.fn(BASE + "._expire_oldest_from_group")
+    head_vars = set()
+    for n in pyfront.walk_no_nested(ef):
+        if isinstance(n, ast.Assign) and norm(ast.unparse(n.value)) == "self.queues[group][0]" and isinstance(n.targets[0], ast.Tuple):
+            head_vars |= {e.id for e in n.targets[0].elts if isinstance(e, ast.Name)}
+    pops = [c for c in pyfront.walk_no_nested(ef) if isinstance(c, ast.Call) and pyfront.call_name(c) == "self.records.pop"]
+    popped = {m.parents.get(c).targets[0].id for c in pops if isinstance(m.parents.get(c), ast.Assign)
+              and isinstance(m.parents.get(c).targets[0], ast.Name)}
+    rm = [c for c in pyfront.walk_no_nested(ef) if isinstance(c, ast.Call) and pyfront.call_name(c) == "self._remove_from_queue"
+          and c.args and isinstance(c.args[0], ast.Name) and c.args[0].id in popped]
+    if not pops:
+        raise AnalysisError("%s._expire_oldest_from_group: self.records.pop(...) not found" % BASE)
+    if len(pops) == 1 and pops[0].args and isinstance(pops[0].args[0], ast.Name) and pops[0].args[0].id in head_vars and rm:
         r.ok("%s %s._expire_oldest_from_group" % (m.rel, BASE), "victim = head of the group's queue; its record is removed and the "
              "(overridable) _remove_from_queue is used")
     else:
